@@ -157,6 +157,7 @@ class _Tr:
     # ---------------------------------------------------------------- statements
     def inversion_of(self, joined, env):
         """f"{inversion}{partial}" -> BExp for 'the text starts with a bang', or None."""
+        joined = self.resolve(joined, env)      # the text may have been built into a local first
         if not isinstance(joined, ast.JoinedStr) or len(joined.values) != 2:
             return None
         a, b = joined.values
